@@ -112,4 +112,14 @@ def _one_file_two_names():
     return OneFileTwoNames()
 
 
-FAMILIES = [Failures(), SeveralPerFile(), _one_file_two_names()]
+def _option_histories():
+    from mc.checks import C12
+
+    class OptionHistories(C12.OptionHistories):
+        """One compiler, calls with changing options - among them a template that cannot be rendered (a code generation failure
+        of every module): what is written and reported by a call is what a fresh compiler writes and reports for its options."""
+        prefix = 'C09'
+    return OptionHistories()
+
+
+FAMILIES = [Failures(), SeveralPerFile(), _one_file_two_names(), _option_histories()]
